@@ -26,6 +26,15 @@ LineVerdict(e) ==
               IN  IF v = "error-expected" THEN (IF o.o = "err" THEN "ok" ELSE "no;date-invalid-picture-or-offset-accepted")
                   ELSE IF o.o # "val" THEN (IF v = "open" THEN "inc:picture component outside JLibDate" ELSE "no;date-valid-call-rejected")
                   ELSE IF v = "yes" THEN "ok" ELSE IF v = "open" THEN "inc:picture component outside JLibDate" ELSE "no;date-wrong-field"
+           \* $toMillis(text, picture): a malformed picture, or a text that lacks a literal character of the picture, is an error;
+           \* which instant a matching text denotes is left to the code (the three round-trip pictures are covered by "rt")
+           [] e.fn = "to" /\ hasPic ->
+              LET S == ScanPicture(e.pic, 1, <<>>, <<>>, 0, 0, 0)
+              IN  IF ~S.ok \/ ~HasMarker(e.pic) THEN (IF o.o = "err" THEN "ok" ELSE "no;date-invalid-picture-or-offset-accepted")
+                  ELSE IF \E i \in 1..Len(e.pic) : e.pic[i] \notin {91, 93} /\ ~(e.pic[i] >= 48 /\ e.pic[i] <= 57) /\ ~(e.pic[i] >= 65 /\ e.pic[i] <= 90) /\ ~(e.pic[i] >= 97 /\ e.pic[i] <= 122)
+                                                   /\ e.pic[i] \notin {44, 42, 45, 32} /\ ~(\E j \in 1..Len(e.s) : e.s[j] = e.pic[i])
+                       THEN (IF o.o = "err" THEN "ok" ELSE "no;date-text-not-matching-the-picture-accepted")
+                  ELSE "inc:parsing by picture outside JLibDate"
            [] e.fn = "to" ->
               LET P == ParseIso(e.s)
               IN  IF P.ok THEN (IF o.o = "val" /\ Has(o, "day") /\ o.day = P.day /\ o.msod = P.ms THEN "ok" ELSE "no;date-wrong-instant")
